@@ -49,6 +49,7 @@ def make_ops(thorough):
         U("T", "cm"),  # duplicate across types
         U("T", "min"),  # possibly before its base unit
         U("L", "bad", broken=True),
+        U("L", "k1000ft3"),  # a symbol of the user's own that CONTAINS a legacy token
         C("c1", "L"),
         C("c1", "T", override=True),
         C("c1", "Z"),  # unknown quantity type
@@ -93,7 +94,7 @@ def make_ops(thorough):
     return ops
 
 
-CONV = {"cm": (0.0, 0.01, 1.0, 0.0), "min": (0.0, 60.0, 1.0, 0.0), "m": (0.0, 1.0, 1.0, 0.0), "MMcf": (0.0, 1000.0, 1.0, 0.0)}
+CONV = {"k1000ft3": (0.0, 5.0, 1.0, 0.0), "cm": (0.0, 0.01, 1.0, 0.0), "min": (0.0, 60.0, 1.0, 0.0), "m": (0.0, 1.0, 1.0, 0.0), "MMcf": (0.0, 1000.0, 1.0, 0.0)}
 
 
 class Sys:
@@ -213,6 +214,20 @@ def invariants(db, has_base=None, full_i4=True):
                     bad.append(("I4:default-scalar-raises:%s" % c, repr(e)))
                     continue
                 units = db.GetUnits(db.GetCategoryQuantityType(c))
+                if c == db.GetCategoryQuantityType(c):
+                    # a category named like its quantity type is the default category of the type's units (unless a unit
+                    # names one itself): every unit finds it and builds a Scalar without naming a category
+                    for u in units:
+                        try:
+                            dcat = db.GetDefaultCategory(u)
+                            if dcat is None:
+                                bad.append(("I4:no-default-category:%s" % u, c))
+                                continue
+                            s = Scalar(1.0, u)
+                            if s.GetUnit() != u or s.GetQuantityType() != c:
+                                bad.append(("I4:scalar-by-unit-strings:%s" % u, repr(s)))
+                        except Exception as e:
+                            bad.append(("I4:scalar-by-unit-raises:%s" % u, repr(e)))
                 for u in units if full_i4 else units[:3]:
                     try:
                         s = Scalar(1.0, u, c)
